@@ -119,6 +119,8 @@ struct HistOpts {
     bool midstream = true;       // key / tweak change in mid-stream without set_counter
     bool lifecycle = false;      // cleanup, repeated cleanup, use after cleanup, re-init
     bool unkeyed_data = false;   // data through an initialised but un-keyed object (unspecified: differential only)
+    bool loose_tweak = false;    // set_tweak also on a plain-keyed or un-keyed CTR object: accepted by the API, result unspecified by
+                                 // the documentation but still required to be deterministic and back-end independent (no model)
     bool allocfail = false;      // some init calls run with their first allocation request failing (needs the allocator monitor)
     int inbetween = 10;          // percent of key lengths between primary sizes
     int max_chunk_class = 2;     // 0: tiny chunks only, 2: full gchunk distribution
@@ -339,6 +341,7 @@ struct HistGen {
             return;
         }
         if (!s.keyed) {
+            if (o.loose_tweak && ctr && s.kind != CM && *chance(10)) { tweak(i); return; }
             if (o.unkeyed_data && *chance(15)) { if (ctr && *chance(40)) counter(i); else data(i); return; }
             if (ctr && *chance(25)) { counter(i); return; }
             key(i);
@@ -351,7 +354,7 @@ struct HistGen {
             key(i);
             if (ctr && !o.midstream) counter(i);
         } else if (w < 85) {
-            if (ctr && s.tweaked) { tweak(i); if (!o.midstream) counter(i); }
+            if (ctr && (s.tweaked || o.loose_tweak)) { tweak(i); if (!o.midstream) counter(i); }
             else if (s.kind == PM) swap(i);
             else data(i);
         } else if (w < 92 && o.lifecycle) cleanup(i);
